@@ -78,6 +78,8 @@ def mk_points(P, numtype, ptkind="auto"):
 
 def pt_tuple(x):
     """library point -> tuple of exact rationals"""
+    if isinstance(x, np.ndarray) and x.ndim == 0:
+        x = x.item()
     if isinstance(x, (list, tuple, np.ndarray)):
         return tuple(ref.fr(c) for c in x)
     return (ref.fr(x),)
@@ -204,6 +206,8 @@ def close(a, b, rel=1e-9, abs_=None):
 
 def pts_equal_exact(got, want):
     """library point vs tuple of Fractions, exact value and exact number type"""
+    if isinstance(got, np.ndarray) and got.ndim == 0:
+        got = got.item()
     g = got if isinstance(got, (list, tuple, np.ndarray)) else (got,)
     if len(g) != len(want):
         return False
@@ -216,6 +220,8 @@ def pts_equal_exact(got, want):
 
 
 def pts_close(got, want, rel=1e-9):
+    if isinstance(got, np.ndarray) and got.ndim == 0:
+        got = got.item()
     g = got if isinstance(got, (list, tuple, np.ndarray)) else (got,)
     if len(g) != len(want):
         return False
@@ -239,6 +245,8 @@ def digest(obj):
     if obj is None or isinstance(obj, (str, bool)):
         return obj
     if isinstance(obj, np.ndarray):
+        if obj.ndim == 0:
+            return ("nd0", digest(obj.item()))
         return ("nd",) + tuple(digest(x) for x in obj.tolist())
     if isinstance(obj, (list, tuple)):
         return tuple(digest(x) for x in obj)
